@@ -294,13 +294,17 @@ where
             } => {
                 match future.as_mut().poll(cx) {
                     Poll::Ready(result) => {
-                        // Notify all waiters
-                        if let Some(k) = key.take() {
+                        // Notify all waiters. Clone the result while the key is still
+                        // held: if a `Clone` impl panics, dropping this future must still
+                        // un-register the key.
+                        if key.is_some() {
                             let result_clone = match &result {
                                 Ok(res) => Ok(res.clone()),
                                 Err(e) => Err(e.clone()),
                             };
-                            in_flight.complete(&k, result_clone);
+                            if let Some(k) = key.take() {
+                                in_flight.complete(&k, result_clone);
+                            }
                         }
                         Poll::Ready(result.map_err(CoalesceError::Service))
                     }
